@@ -245,6 +245,10 @@ def _to_args(f):
     return kw
 
 
+class _Sweep(dict):
+    """a filter combination of the single-filter value sweeps (quick tier: evaluated on ONE of the two paths, alternating)"""
+
+
 def _combos(r, method, values, exhaustive, pools=None):
     names = FILTERS[method]
     if pools is not None:
@@ -252,7 +256,7 @@ def _combos(r, method, values, exhaustive, pools=None):
         for n in names:
             for v in pools[n]:
                 if v != values[n]:
-                    yield {m: (v if m == n else None) for m in names}
+                    yield _Sweep({m: (v if m == n else None) for m in names})
     if exhaustive:
         for mask in range(2 ** len(names)):
             yield {n: (values[n] if mask >> i & 1 else None) for i, n in enumerate(names)}
@@ -282,14 +286,14 @@ def _code(c):
 
 def _check_accessors(ctx, case, seq, g, method):
     """a returned group reports what it was constructed with.  Every query returns a fresh object for the group, so the
-    accessors are checked on the first return of a group on a path and on every 5th return after that (the full check is a
+    accessors are checked on the first return of a group on a path and on every 8th return after that (the full check is a
     third of the run time otherwise); the tracking UID is checked on every return."""
     from gen import srreports
     import numpy as np
     seen = ctx.__dict__.setdefault('_acc_seen', {})
     key = (case.get('stream'), case.get('idx'), case.get('group'), case.get('path'), method)
     seen[key] = seen.get(key, 0) + 1
-    if seen[key] % 5 != 1:
+    if seen[key] % 8 != 1:
         if str(seq.tracking_uid) != g['tracking_uid']:
             ctx.fail(dict(case, accessor='tracking_uid'), {'what': 'returned group does not report its construction values',
                                                            'problems': [{'what': 'tracking_uid', 'got': str(seq.tracking_uid), 'want': g['tracking_uid']}]},
@@ -458,6 +462,7 @@ def _check_report(ctx, c, reqs, pending, only=None, spec_reqs=None, spec_pending
     model_groups = [_model_params(g) for g in groups]
     _check_layout(ctx, c, reqs, pending)
     exhaustive = n <= 2 and c['idx'] % 5 == 0
+    sweep_no = [c['idx']]
     for method in ('planar', 'volumetric', 'image'):
         n_kind = sum(1 for g in groups if g['kind'] == method)
         values = _filter_values(r, groups, c['pool'], method)
@@ -472,7 +477,11 @@ def _check_report(ctx, c, reqs, pending, only=None, spec_reqs=None, spec_pending
             spec_pending.append(({'stream': 'report', 'seed': ctx.seed, 'idx': c['idx'], 'method': method,
                                   'filters': {k: v for k, v in f.items() if v is not None}, 'what': 'spec'}, why, must, may))
             first = True
-            for pname, rep in paths:
+            use_paths = paths
+            if isinstance(f, _Sweep) and ctx.tier == 'quick' and not ctx.search_mode and len(paths) == 2:
+                sweep_no[0] += 1
+                use_paths = [paths[sweep_no[0] % 2]]
+            for pname, rep in use_paths:
                 case = dict(base_case, method=method, filters={k: v for k, v in f.items() if v is not None}, path=pname)
                 res = _call(getattr(rep, METHODS[method]), **_to_args(f))
                 ok = res[0] == 'ok'
@@ -711,7 +720,7 @@ def _shapes(ctx, reqs, pending, spec_reqs, spec_pending, only_idx=None):
         uids = [g['tracking_uid'] for g in groups]
         for method in ('planar', 'volumetric', 'image'):
             fl = [{n: None for n in FILTERS[method]}]
-            if method != 'image' and idx % 4 == 0:
+            if method != 'image' and idx % (6 if (ctx.tier == 'quick' and not ctx.search_mode) else 4) == 0:
                 fl += [dict(fl[0], graphic_type=gt) for gt in _pools(groups, pool)['graphic_type']]
             for f in fl:
                 why, must, may = expected(groups, method, f)
@@ -950,7 +959,8 @@ def _twins(ctx, reqs, pending, spec_reqs, spec_pending, only_idx=None):
             joint.pop('referenced_sop_class_uid', None)
         combos.append(joint)
         plan = [(kind, {n_: c.get(n_) for n_ in names}) for c in combos]
-        plan += [(m, {n_: None for n_ in FILTERS[m]}) for m in ('planar', 'volumetric', 'image') if m != kind]
+        if ctx.tier != 'quick' or ctx.search_mode:
+            plan += [(m, {n_: None for n_ in FILTERS[m]}) for m in ('planar', 'volumetric', 'image') if m != kind]
         plan += [(m, {n_: (own['tracking_uid'] if n_ == 'tracking_uid' else None) for n_ in FILTERS[m]})
                  for m in ('planar', 'volumetric', 'image') if m != kind]
         for method, f in plan:
@@ -990,6 +1000,102 @@ def _twins(ctx, reqs, pending, spec_reqs, spec_pending, only_idx=None):
                         _check_accessors(ctx, dict(case, group=k), s_, groups[k], method)
     ctx.exhaustive.append(f'twins: for each of the {len(SHAPES)} group shapes a report with two identical-valued groups and a third sharing '
                           'the tracking UID; every single filter, every pair with the tracking UID, all jointly; in memory and re-read')
+
+
+def _pairs(ctx, reqs, pending, spec_reqs, spec_pending, only_idx=None):
+    """COUPLED filters: the referenced class UID and the referenced instance UID must hold for ONE AND THE SAME referenced
+    instance.  For every group shape a report [A, X] where A references several instances of DIFFERENT SOP classes wherever
+    the shape allows it (image groups, segments and regions with several source images of alternating classes; a
+    segmentation frame references the segmentation and its source image anyway), queried with the FULL cross product
+    (class of reference i, instance UID of reference j) - the diagonal names a real instance, every other pair is satisfied
+    by no single item - plus each UID alone; in memory and re-read."""
+    import highdicom as hd
+    from gen import srreports
+    from pydicom.sr.codedict import codes
+    n_extra = ctx.n(0, 60)
+    for idx in ([only_idx] if only_idx is not None else range(len(SHAPES) + n_extra)):
+        r = ctx.rng('pairs', idx)
+        shape = SHAPES[idx % len(SHAPES)]
+        pool = srreports.instance_pool(r)
+        # instances of alternating classes, so that several references of one group differ in class
+        imgs = [((srreports.CT, srreports.MR, srreports.RTSS)[k % 3], f'{pool["base"]}.1.{k + 1}') for k in range(6)]
+        pool['images'] = imgs
+        res = _call(_shape_group, r, pool, 1, shape)
+        if res[0] != 'ok':
+            ctx.note(f'pairs {idx}: {res[2]}')
+            continue
+        a = res[1]
+        t = a['ref']['type']
+        if t == 'images':
+            a['ref']['sources'] = imgs[:r.choice([2, 3])]
+        elif t in ('segment', 'surface') and a['ref'].get('sources') is not None:
+            a['ref']['sources'] = imgs[1:1 + r.choice([2, 3])]
+        elif t == 'regions2d':
+            a['ref']['regions'] = [(g_, imgs[k]) for k, (g_, _) in enumerate(a['ref']['regions'])]
+        x = _shape_group(r, pool, 2, r.choice(SHAPES))
+        groups = [a, x] if idx % 2 == 0 else [x, a]
+        oc = hd.sr.ObservationContext(observer_person_context=hd.sr.ObserverContext(
+            observer_type=codes.DCM.Person, observer_identifying_attributes=hd.sr.PersonObserverIdentifyingAttributes(name='Doe^Jane')))
+        res = _call(lambda: hd.sr.MeasurementReport(observation_context=oc, procedure_reported=codes.LN.CTUnspecifiedBodyRegion,
+                                                    imaging_measurements=[srreports.build_group(r, g) for g in groups]))
+        case0 = {'stream': 'pairs', 'seed': ctx.seed, 'idx': idx, 'shape': list(shape)}
+        if res[0] != 'ok':
+            ctx.fail(case0, f'report of admissible groups not constructed: {res[2]}', site='report/construct')
+            continue
+        rep = res[1]
+        paths = [('memory', rep)]
+        rd = _call(_as_document, {'groups': groups, 'pool': pool, 'rep': rep})
+        if rd[0] == 'ok' and type(rd[1].content).__name__ == 'MeasurementReport':
+            paths.append(('reread', rd[1].content))
+        else:
+            ctx.fail(case0, f'report cannot be written and parsed back: {rd[2] if rd[0] != "ok" else type(rd[1].content).__name__}', site='srread')
+        model_groups = [_model_params(g) for g in groups]
+        kind = shape[0]
+        refs = []
+        for ref_ in srreports.referenced_instances(a):
+            if ref_ not in refs:
+                refs.append(ref_)
+        classes = list(dict.fromkeys(c_ for c_, _ in refs))
+        insts = [i_ for _, i_ in refs]
+        names = FILTERS[kind]
+        combos = [{'referenced_sop_class_uid': c_, 'referenced_sop_instance_uid': i_} for c_ in classes for i_ in insts]
+        combos += [{'referenced_sop_class_uid': c_} for c_ in classes] + [{'referenced_sop_instance_uid': i_} for i_ in insts[:2]]
+        ctx.hist('pairs_references', f'{t}: {len(refs)} references of {len(classes)} classes')
+        for cmb in combos:
+            f = {n_: cmb.get(n_) for n_ in names}
+            why, must, may = expected(groups, kind, f)
+            reqs.append(('query', {'method': kind, 'groups': model_groups,
+                                   'filters': {k: (list(v) if isinstance(v, tuple) else v) for k, v in f.items()}}))
+            spec_reqs.append(('spec', reqs[-1][1]))
+            spec_pending.append((dict(case0, method=kind, filters={k: v for k, v in f.items() if v is not None}, what='spec'), why, must, may))
+            mixed = len(cmb) == 2 and (cmb['referenced_sop_class_uid'], cmb['referenced_sop_instance_uid']) not in refs
+            first = True
+            for pname, rp in paths:
+                case = dict(case0, method=kind, filters={k: v for k, v in f.items() if v is not None}, path=pname)
+                res = _call(getattr(rp, METHODS[kind]), **_to_args(f))
+                ok = res[0] == 'ok'
+                ctx.case(path='pairs/' + pname, method=kind, outcome=('ok' if ok else res[2].split(':')[0]),
+                         pair=('mixed (no single reference has both)' if mixed else 'one reference has both' if len(cmb) == 2 else 'single filter'),
+                         nontrivial_key=('pairs', tuple(shape), tuple(sorted(cmb.items())), pname) if mixed else None)
+                if first:
+                    pending.append((case, ('ok', [_tracking(s_) for s_ in res[1]]) if ok else ('err', res[1]), groups, 'query'))
+                    first = False
+                if why:
+                    if ok:
+                        ctx.fail(case, f'filter combination accepted although it cannot apply: {why}', site=f'{kind}/refusal')
+                    continue
+                if not ok:
+                    ctx.fail(case, f'applicable query refused: {res[2]}', site=f'{kind}/accept')
+                    continue
+                got_idx = _match_positions(groups, res[1], may)
+                if got_idx is None or any(k not in got_idx for k in must):
+                    ctx.fail(case, {'what': 'query result is not exactly the groups of that kind satisfying every filter, in document order '
+                                            '(class and instance UID must hold for one and the same referenced instance)',
+                                    'got_tracking_uids': [_tracking(s_) for s_ in res[1]],
+                                    'must': [groups[k]['tracking_uid'] for k in must], 'may': [groups[k]['tracking_uid'] for k in may],
+                                    'references_of_the_group': refs}, site=f'{kind}/result')
+    ctx.exhaustive.append(f'pairs: for each of the {len(SHAPES)} group shapes the full cross product (class of reference i, instance UID of '
+                          'reference j) over the references of one group, which are of different SOP classes wherever the shape allows')
 
 
 MALFORMED = ['bogus-graphic', 'no-graphic', 'no-sop', 'no-sop-source', 'no-children', 'reverse-regions', 'legacy-names',
@@ -1355,7 +1461,7 @@ def run(ctx):
         t_[0] = time.time()
     _helpers(ctx, reqs2, pending2)
     lap('argument checks')
-    for idx in range(ctx.n(18, 250)):
+    for idx in range(ctx.n(12, 250)):
         res = _call(_report_case, ctx, idx)
         if res[0] != 'ok':
             ctx.fail({'stream': 'report', 'seed': ctx.seed, 'idx': idx}, f'a valid report could not be constructed: {res[2]}',
@@ -1367,6 +1473,8 @@ def run(ctx):
     lap('shapes')
     _twins(ctx, reqs, pending, spec_reqs, spec_pending)
     lap('twins')
+    _pairs(ctx, reqs, pending, spec_reqs, spec_pending)
+    lap('pairs')
     reqs3, pending3 = [], []
     _third_party(ctx, reqs3, pending3)
     lap('third party')
@@ -1419,6 +1527,61 @@ def run(ctx):
             ctx.disagree('L2', dict(case, layer='L2'), impl, ans, 'argument check: error kind')
 
 
+def search(ctx, broken):
+    """Failing-input search after a tie broke (proof / translation / correspondence): the streams that exercise what no
+    longer checks first (cheapest first), everything else after, and stop at the first oracle failure - the search is for
+    ONE failing input, not for a census."""
+    names = ' '.join(broken)
+    hit = lambda *keys: any(k in names for k in keys)   # noqa: E731
+    order = []
+    if hit('T16d', 'filter_item_tests', 'T16h', 'filters_forward', 'T16l', 'filter_skeleton', 'T15c', 'search_item_test', 'query: groups returned'):
+        order += ['pairs', 'twins', 'fixtures', 'thirdparty', 'reports']
+    if hit('T16a', 'T16j', 'kind', 'T16e', 'no_state', 'T16k', 'every_group', 'countRoi', 'containsPlanar'):
+        order += ['shapes', 'twins', 'histories']
+    if hit('T16b', 'T16c', 'incompatible_filters', 'arg_checks', 'reference_tables', 'covered_', 'argument check'):
+        order += ['helpers', 'shapes']
+    if hit('T16f', 'graphic_entry', 'T15e'):
+        order += ['shapes', 'malformed', 'thirdparty']
+    if hit('T16g', 'queries_write_nothing'):
+        order += ['histories', 'malformed', 'twins']
+    if hit('T16i', 'roi_search'):
+        order += ['thirdparty', 'shapes', 'reports']
+    if hit('T16m', 'accessors_', 'layout'):
+        order += ['twins', 'reports']
+    order += ['pairs', 'helpers', 'twins', 'histories', 'fixtures', 'thirdparty', 'shapes', 'malformed', 'reports']
+    done = set()
+    for name in order:
+        if name in done:
+            continue
+        done.add(name)
+        ctx.note(f'search: stream {name}')
+        if name == 'helpers':
+            _helpers(ctx, [], [])
+        elif name == 'reports':
+            for idx in range(ctx.n(12, 250)):
+                res = _call(_report_case, ctx, idx)
+                if res[0] == 'ok':
+                    _check_report(ctx, res[1], [], [])
+                if ctx.failures:
+                    return
+        elif name == 'shapes':
+            _shapes(ctx, [], [], [], [])
+        elif name == 'twins':
+            _twins(ctx, [], [], [], [])
+        elif name == 'pairs':
+            _pairs(ctx, [], [], [], [])
+        elif name == 'thirdparty':
+            _third_party(ctx, [], [])
+        elif name == 'malformed':
+            _malformed(ctx, [], [])
+        elif name == 'fixtures':
+            _fixtures(ctx, [], [])
+        elif name == 'histories':
+            _histories(ctx, [], [])
+        if ctx.failures:
+            return
+
+
 def replay(ctx, case):
     sub = type(ctx)(ctx.prop, ctx.tier, case.get('seed', ctx.seed), 1, ctx.driver)
     if case.get('stream') == 'report':
@@ -1437,5 +1600,7 @@ def replay(ctx, case):
         _shapes(sub, [], [], [], [], only_idx=case['idx'])
     elif case.get('stream') == 'twins':
         _twins(sub, [], [], [], [], only_idx=case['idx'])
+    elif case.get('stream') == 'pairs':
+        _pairs(sub, [], [], [], [], only_idx=case['idx'])
     fl = [f for f in sub.failures if all(f['case'].get(k) == case.get(k) for k in ('method', 'path') if k in case)]
     return (fl or sub.failures)[:3] or None
